@@ -39,7 +39,9 @@ def render(lines, spelling, rnd):
         elif k == "wh":
             t = "while vcond %d" % i + ("; do" if spelling == "semi" else "")
         elif k == "fo":
-            t = "for v in " + " ".join("w%d" % j for j in range(1, l["n"] + 1)) + ("; do" if spelling == "semi" else "")
+            words = " ".join("w%d" % j for j in range(1, l["n"] + 1))
+            # an empty word list is written with and without a blank after `in`
+            t = ("for v in " + words if (words or rnd.random() < 0.5) else "for v in") + ("; do" if spelling == "semi" else "")
         elif k == "dn":
             t = "done"
         out.append(base + ind + t)
